@@ -62,6 +62,24 @@ CHECKS = {
             "argument types) is repeated on a freshly built twin; outcome trees must be equal.",
             "Same method set on both sides so no model is needed; iteration order is pinned on both sides.",
             "DESIGN.md §4 C04"),
+    "C05": ("exploration",
+            "runtime differential monitor: mutated Ovld / MultiTypeMap vs fresh build of the resulting method set after every mutation",
+            "After every register / re-register / unregister of a random history (calls, also failing ones, in between) "
+            "all probes are compared with an object built from scratch from the resulting method set.",
+            "Resulting set = registrations in order minus unregistered functions; order pinned on both sides.",
+            "DESIGN.md §4 C05"),
+    "C16": ("exploration",
+            "runtime monitor: graph reference model in lock-step, every used node probed after every operation (no silent drift)",
+            "Random create / copy / variant / mixin / add_mixins / register / unregister / use histories with and without "
+            "linkback; after each step every used node must answer from its model table, a refusal needs a used descendant.",
+            "Disjoint builtin parameter types; mixed linkback paths may refuse or propagate.",
+            "DESIGN.md §4 C16"),
+    "C20": ("exploration",
+            "runtime monitor: counters in user class predicates / order hooks and sys.monitoring PY_START counters on resolution entry points",
+            "After a warm-up pass every repeated call (direct, recurse, call_next, f.next, resolve()) must leave the user-hook "
+            "counters and the counters of the library's type-order / applicability functions unchanged; again after a register().",
+            "Failing calls are re-resolved by design and excluded; value conditions are per-call by design.",
+            "DESIGN.md §4 C20"),
     "C07": ("exploration",
             "runtime monitor: delegation trees returned by generated bodies vs iterated-removal reference model",
             "Every body reports itself and what its call_next / f.next returned, so one call yields the whole chain; the "
